@@ -155,6 +155,8 @@ def canon_elem(x):
         return str(x)
     if isinstance(x, bytes):
         return x.decode("latin-1")
+    if isinstance(x, (complex, np.complexfloating)):
+        return repr(complex(x))
     return repr(x)
 
 
